@@ -133,6 +133,9 @@ fn cell_queries<C: Combo>(sink: &mut Sink, rng: &mut Rng, d: u8, l: &[Range<u64>
       m.eq_without_depth(&same_ranges_other_depth), m.eq_without_depth(&m.complement()))
   }));
   sink.emit(&format!("q_fl {}", fl), &ans, !l.is_empty());
+  // the smallest depth at which the ranges are a union of whole cells
+  let ans = guarded(AssertUnwindSafe(|| m.moc_ranges().compute_min_depth().to_string()));
+  sink.emit(&format!("q_mindepth {} {} {}", q, w, fl), &ans, !l.is_empty());
   // cells around the bounds of the MOC, at depths shallower / equal / deeper than the MOC depth
   let mut bounds: Vec<u64> = l.iter().flat_map(|r| [r.start, r.end]).collect();
   bounds.push(0);
